@@ -1010,7 +1010,8 @@ func S12(rc *RC) {
 		return s
 	}
 	markedS := ren(marked.String())
-	goal := ir.ParseBool("(((SL != nil) && (!$r.IsVector() && ((I != OUTER) || $r.o.IsTransposed()))) || (STEP > 1))")
+	// a lazily transposed non-vector pattern is marked whether or not the axis is cut (finding 76)
+	goal := ir.ParseBool("((!$r.IsVector() && ($r.o.IsTransposed() || ((SL != nil) && (I != OUTER)))) || (STEP > 1))")
 	got := ir.ParseBool(markedS)
 	var bad []string
 	if !ir.Implies([]*ir.BExpr{goal}, got) {
